@@ -122,7 +122,22 @@ fn gen_c02(cfg: &GenCfg, rng: &mut Rng, w: &mut dyn Write, kind: &str) {
         pool.push("cT".into());
         pool.push("cF".into());
         let steps = if cfg.thorough { 400 } else { 150 };
+        let mut n = n;
         for s in 0..steps {
+            if (s == steps / 3 || s == 2 * steps / 3) && n < 9 {
+                // the manager grows while handles and memoised results of the connectives are alive
+                // (negation-based ZBDD connectives depend on the variable domain)
+                writeln!(w, "addvars 1").unwrap();
+                writeln!(w, "var x{} {}", n, n).unwrap();
+                writeln!(w, "notvar nx{} {}", n, n).unwrap();
+                pool.push(format!("x{n}"));
+                pool.push(format!("nx{n}"));
+                n += 1;
+                for h in ["cT", "cF"] {
+                    writeln!(w, "op ra_{}_{} nand {} {}", s, h, h, h).unwrap();
+                    writeln!(w, "op rb_{}_{} equiv {} {}", s, h, h, rng.pick(&pool)).unwrap();
+                }
+            }
             let name = format!("g{s}");
             let k = rng.below(10);
             if k == 0 {
